@@ -125,24 +125,392 @@ fn pick_instant(rng: &mut Rng, s: &Cm) -> i64 {
     }
 }
 
+const LIMIT_MS: i64 = (i32::MAX as i64) * 60_000;
+
+fn build_ledger(min_round: u64, max_round: u64, target: u64, initial_time: i64) -> Result<Ledger, String> {
+    let mut genesis = BabylonSettings::test_default().with_consensus_manager_config(
+        ConsensusManagerConfig::test_default().with_epoch_change_condition(EpochChangeCondition {
+            min_round_count: min_round,
+            max_round_count: max_round,
+            target_duration_millis: target,
+        }),
+    );
+    genesis.initial_time_ms = initial_time;
+    catch(std::panic::AssertUnwindSafe(|| {
+        LedgerSimulatorBuilder::new()
+            .with_custom_protocol(|b| b.configure_babylon(|_| genesis).from_bootstrap_to_latest())
+            .without_kernel_trace()
+            .build()
+    }))
+}
+
+/// One case: a ledger, the ops performed so far (as Coq terms) and the direct-oracle failures.
+struct Runner {
+    ledger: Ledger,
+    cfg_coq: String,
+    init: Cm,
+    s: Cm,
+    items: Vec<String>,
+    failures: Vec<String>,
+    n_ok: u64,
+    n_err: u64,
+    n_epoch: u64,
+}
+
+impl Runner {
+    fn new(min_round: u64, max_round: u64, target: u64, initial_time: i64) -> Result<Runner, String> {
+        let mut ledger = build_ledger(min_round, max_round, target, initial_time)?;
+        let init = read_cm(&mut ledger);
+        Ok(Runner {
+            ledger,
+            cfg_coq: format!("(mkCfg {}%N {}%N {}%N)", min_round, max_round, target),
+            s: init.clone(),
+            init,
+            items: vec![],
+            failures: vec![],
+            n_ok: 0,
+            n_err: 0,
+            n_epoch: 0,
+        })
+    }
+
+    /// a real next_round system transaction; returns (error name, epoch changed)
+    fn next_round(&mut self, report: &mut Report, round: u64, ts: i64, gap_leaders: Vec<u8>, current_leader: u8, fallback: bool) -> (Option<String>, bool) {
+        let gaps = gap_leaders.len() as u64;
+        let leaders_ok = current_leader == 0 && gap_leaders.iter().all(|x| *x == 0);
+        let receipt = sys_call(
+            &mut self.ledger,
+            CONSENSUS_MANAGER_NEXT_ROUND_IDENT,
+            ConsensusManagerNextRoundInput {
+                round: Round::of(round),
+                proposer_timestamp_ms: ts,
+                leader_proposal_history: LeaderProposalHistory { gap_round_leaders: gap_leaders, current_leader, is_fallback: fallback },
+            },
+        );
+        let e = err_name(&receipt);
+        let after = read_cm(&mut self.ledger);
+        let s = self.s.clone();
+        // direct oracle
+        if after.milli < s.milli || after.minute < s.minute {
+            self.failures.push(format!("clock decreased: {:?} -> {:?}", s, after));
+        }
+        if !(after.epoch == s.epoch || (after.epoch == s.epoch.wrapping_add(1) && after.round == 0)) {
+            self.failures.push(format!("epoch step not 0/+1 with round reset: {:?} -> {:?}", s, after));
+        }
+        if after.epoch == s.epoch && e.is_none() && after.round <= s.round {
+            self.failures.push(format!("round did not advance within the epoch: {:?} -> {:?}", s, after));
+        }
+        if (after.milli / 60_000) as i128 != after.minute as i128 {
+            self.failures.push(format!("minute clock {} != milli clock {} / 60000", after.minute, after.milli));
+        }
+        if e.is_some() && after != s {
+            self.failures.push(format!("failed round update changed the state: {:?} -> {:?}", s, after));
+        }
+        if e.is_none() {
+            self.n_ok += 1;
+            if after.milli != ts {
+                self.failures.push(format!("accepted timestamp {} not recorded (milli {})", ts, after.milli));
+            }
+            if ts < s.milli {
+                self.failures.push(format!("decreasing timestamp {} accepted (clock {})", ts, s.milli));
+            }
+        } else {
+            self.n_err += 1;
+            report.count(&format!("err_{}", e.clone().unwrap()));
+        }
+        let changed = after.epoch != s.epoch;
+        if changed {
+            self.n_epoch += 1;
+            if after.act != ts {
+                self.failures.push(format!("epoch change did not record the proposer timestamp as epoch start: {:?}", after));
+            }
+        }
+        self.items.push(format!(
+            "(ONext (mkIn {}%N {} {}%N {}), RNext {} {})",
+            round,
+            coq_z(ts),
+            gaps,
+            coq_bool(leaders_ok),
+            match &e { None => "None".to_string(), Some(n) => format!("(Some {})", n) },
+            cm_coq(&after)
+        ));
+        self.s = after;
+        (e, changed)
+    }
+
+    fn get_time(&mut self, report: &mut Report, second: bool) -> i64 {
+        let receipt = sys_call(
+            &mut self.ledger,
+            CONSENSUS_MANAGER_GET_CURRENT_TIME_IDENT,
+            ConsensusManagerGetCurrentTimeInputV2 { precision: if second { TimePrecisionV2::Second } else { TimePrecisionV2::Minute } },
+        );
+        let t: Instant = receipt.expect_commit(true).output(0);
+        let expect = if second { (self.s.milli / 1000) as i128 } else { (self.s.minute as i128) * 60 };
+        if t.seconds_since_unix_epoch as i128 != expect {
+            self.failures.push(format!("get_current_time({}) = {} but clock says {}", if second { "Second" } else { "Minute" }, t.seconds_since_unix_epoch, expect));
+        }
+        report.count("op_get_time");
+        self.items.push(format!("({}, RTime {})", if second { "OGetSecond" } else { "OGetMinute" }, coq_z(t.seconds_since_unix_epoch)));
+        t.seconds_since_unix_epoch
+    }
+
+    fn compare(&mut self, report: &mut Report, inst: i64, second: bool, o: TimeComparisonOperator) -> bool {
+        let receipt = sys_call(
+            &mut self.ledger,
+            CONSENSUS_MANAGER_COMPARE_CURRENT_TIME_IDENT,
+            ConsensusManagerCompareCurrentTimeInputV2 {
+                instant: Instant::new(inst),
+                precision: if second { TimePrecisionV2::Second } else { TimePrecisionV2::Minute },
+                operator: o,
+            },
+        );
+        let b: bool = receipt.expect_commit(true).output(0);
+        // the statement: recorded clock vs the argument truncated to the precision (saturated)
+        let expect = if second {
+            cmp128((self.s.milli / 1000) as i128, inst as i128, o)
+        } else {
+            let m = ((inst as i128) / 60).clamp(i32::MIN as i128, i32::MAX as i128);
+            cmp128(self.s.minute as i128, m, o)
+        };
+        if b != expect {
+            self.failures.push(format!("compare_current_time({}, {}, {}) = {} but the recorded clock {:?} gives {}", inst, if second { "Second" } else { "Minute" }, op_name(o), b, self.s, expect));
+        }
+        report.count("op_compare");
+        self.items.push(format!("({} {} {}, RBool {})", if second { "OCmpSecond" } else { "OCmpMinute" }, coq_z(inst), op_name(o), coq_bool(b)));
+        b
+    }
+
+    fn finish(self, report: &mut Report, cw: &mut CaseWriter, ci: usize, sample: bool) {
+        report.count_n("round_updates_accepted", self.n_ok);
+        report.count_n("round_updates_rejected", self.n_err);
+        report.count_n("epoch_changes", self.n_epoch);
+        let canon = self.items.join(";");
+        report.case(&format!("{}{}{}", self.cfg_coq, cm_coq(&self.init), canon), self.n_ok > 0 && self.n_err > 0 && self.n_epoch > 0);
+        for f in &self.failures {
+            report.oracle_failure(ci, "", f, json!({"cfg": self.cfg_coq, "init": cm_coq(&self.init), "ops": self.items.iter().take(80).collect::<Vec<_>>()}));
+        }
+        if sample {
+            report.sample(json!({"cfg": self.cfg_coq, "init": cm_coq(&self.init), "ops": self.items.iter().take(12).collect::<Vec<_>>()}));
+        }
+        cw.push(format!("({}, {}, {})", self.cfg_coq, cm_coq(&self.init), coq_list(self.items.into_iter())));
+    }
+}
+
+const ALL_OPS: [TimeComparisonOperator; 5] = [
+    TimeComparisonOperator::Eq,
+    TimeComparisonOperator::Lt,
+    TimeComparisonOperator::Lte,
+    TimeComparisonOperator::Gt,
+    TimeComparisonOperator::Gte,
+];
+
+/// a scripted round update whose outcome is expected: the class is counted only when it is observed
+fn expect_round(r: &mut Runner, report: &mut Report, class: &str, round: u64, ts: i64, gaps: usize, expect_err: Option<&str>, expect_change: bool) {
+    let (e, changed) = r.next_round(report, round, ts, vec![0; gaps], 0, false);
+    if e.as_deref() == expect_err && changed == expect_change {
+        report.count(class);
+    } else {
+        report.count("b_unexpected_outcome");
+        report.notes.push(format!("scripted step {}: expected ({:?}, change={}) got ({:?}, change={})", class, expect_err, expect_change, e, changed));
+    }
+}
+
+fn compare_all(r: &mut Runner, report: &mut Report, class: &str, inst: i64, second: bool) {
+    for o in ALL_OPS {
+        r.compare(report, inst, second, o);
+    }
+    report.count(class);
+}
+
+/// Deterministic boundary family (identical for every seed).
+fn boundary_family(report: &mut Report, cw: &mut CaseWriter) -> usize {
+    let mut ci = 0usize;
+    // ---- A: negative clock, minute rounding toward zero, every timestamp comparison at equality ----
+    {
+        let mut r = Runner::new(2, 1000, 1_000_000_000, -120_001).expect("genesis");
+        if r.s.minute == -2 && r.s.milli == -120_001 {
+            report.count("b_genesis_negative_time_truncated_minute");
+        }
+        r.get_time(report, false);
+        r.get_time(report, true);
+        compare_all(&mut r, report, "b_cmp_negative_minute_eq", -120, false);
+        compare_all(&mut r, report, "b_cmp_negative_minute_below", -121, false); // -121/60 truncates to -2
+        compare_all(&mut r, report, "b_cmp_negative_minute_above", -119, false); // truncates to -1
+        compare_all(&mut r, report, "b_cmp_negative_second_eq", -120, true);
+        compare_all(&mut r, report, "b_cmp_negative_second_off_by_one", -121, true);
+        expect_round(&mut r, report, "b_ts_equal_to_previous", 1, -120_001, 0, None, false);
+        expect_round(&mut r, report, "b_ts_one_below_previous", 2, -120_002, 0, Some("InvalidProposerTimestampUpdate"), false);
+        expect_round(&mut r, report, "b_ts_one_above_previous_same_minute", 2, -120_000, 0, None, false);
+        expect_round(&mut r, report, "b_ts_negative_minute_step", 3, -119_999, 0, None, false); // -119999/60000 = -1
+        expect_round(&mut r, report, "b_ts_negative_minute_exact", 4, -60_000, 0, None, false);
+        expect_round(&mut r, report, "b_ts_negative_to_minute_zero", 5, -59_999, 0, None, false); // truncates to 0
+        r.get_time(report, false);
+        r.get_time(report, true); // -59999/1000 = -59
+        expect_round(&mut r, report, "b_ts_minus_one_ms", 6, -1, 0, None, false);
+        compare_all(&mut r, report, "b_cmp_minus_one_second_minute_precision", -1, false); // -1/60 = 0
+        compare_all(&mut r, report, "b_cmp_zero_second_precision_clock_minus_1ms", 0, true); // -1/1000 = 0
+        expect_round(&mut r, report, "b_ts_zero", 7, 0, 0, None, false);
+        expect_round(&mut r, report, "b_ts_last_ms_of_minute", 8, 59_999, 0, None, false);
+        expect_round(&mut r, report, "b_ts_first_ms_of_minute", 9, 60_000, 0, None, false);
+        r.get_time(report, false);
+        r.get_time(report, true);
+        compare_all(&mut r, report, "b_cmp_minute_eq", 60, false);
+        compare_all(&mut r, report, "b_cmp_minute_last_second_of_minute", 119, false);
+        compare_all(&mut r, report, "b_cmp_minute_next_minute", 120, false);
+        compare_all(&mut r, report, "b_cmp_minute_prev_minute", 59, false);
+        compare_all(&mut r, report, "b_cmp_second_eq", 60, true);
+        compare_all(&mut r, report, "b_cmp_second_plus_1", 61, true);
+        compare_all(&mut r, report, "b_cmp_second_minus_1", 59, true);
+        // saturation of the argument: i64 extremes, checked_mul edge, i32 minute edge
+        for (class, inst) in [
+            ("b_cmp_sat_i64_max", i64::MAX),
+            ("b_cmp_sat_i64_min", i64::MIN),
+            ("b_cmp_mul_edge_fits", i64::MAX / 1000),
+            ("b_cmp_mul_edge_overflows", i64::MAX / 1000 + 1),
+            ("b_cmp_mul_edge_fits_neg", i64::MIN / 1000),
+            ("b_cmp_mul_edge_overflows_neg", i64::MIN / 1000 - 1),
+            ("b_cmp_i32_minute_max", (i32::MAX as i64) * 60 + 59),
+            ("b_cmp_i32_minute_max_plus_1", (i32::MAX as i64) * 60 + 60),
+            ("b_cmp_i32_minute_min", (i32::MIN as i64) * 60 - 59),
+            ("b_cmp_i32_minute_min_minus_1", (i32::MIN as i64) * 60 - 60),
+        ] {
+            compare_all(&mut r, report, class, inst, false);
+            compare_all(&mut r, report, class, inst, true);
+        }
+        r.finish(report, cw, ci, false);
+        ci += 1;
+    }
+    // ---- B: rounds and the epoch-change criterion (min 3, max 6, target 60 s), genesis time 1000 ----
+    {
+        let mut r = Runner::new(3, 6, 60_000, 1000).expect("genesis");
+        let t0 = r.s.eff;
+        let cur_round = r.s.round;
+        expect_round(&mut r, report, "b_round_same", cur_round, t0, 0, Some("InvalidRoundUpdate"), false);
+        expect_round(&mut r, report, "b_round_plus_1", 1, t0, 0, None, false);
+        expect_round(&mut r, report, "b_round_minus_1", 0, t0, 0, Some("InvalidRoundUpdate"), false);
+        expect_round(&mut r, report, "b_round_below_min_duration_reached", 2, t0 + 60_000, 0, None, false); // round < min: no change
+        // round >= min: duration decides, at target - 1 / target
+        let mut r2 = Runner::new(3, 6, 60_000, 1000).expect("genesis");
+        let u0 = r2.s.eff;
+        expect_round(&mut r2, report, "b_round_gap_right_count", 3, u0 + 59_999, 2, None, false); // duration = target - 1
+        expect_round(&mut r2, report, "b_round_gap_too_few_leaders", 5, u0 + 59_999, 0, Some("InconsistentGapRounds"), false);
+        expect_round(&mut r2, report, "b_round_gap_too_many_leaders", 5, u0 + 59_999, 2, Some("InconsistentGapRounds"), false);
+        expect_round(&mut r2, report, "b_epoch_change_duration_equals_target", 4, u0 + 60_000, 0, None, true);
+        if r2.s.eff == u0 + 60_000 {
+            report.count("b_effective_start_snapped_to_target");
+        }
+        // max round reached with a short duration (< 1000 ms: not "close"), effective start = timestamp
+        let v0 = r2.s.milli;
+        expect_round(&mut r2, report, "b_round_max_minus_1_short_duration", 5, v0 + 10, 4, None, false);
+        expect_round(&mut r2, report, "b_epoch_change_by_max_round", 6, v0 + 20, 0, None, true);
+        if r2.s.eff == v0 + 20 {
+            report.count("b_effective_start_is_timestamp");
+        }
+        // invalid validator index, in the gap list and as current leader
+        let m = r2.s.milli;
+        let (e, _) = r2.next_round(report, 1, m, vec![], 7, false);
+        if e.as_deref() == Some("InvalidValidatorIndex") {
+            report.count("b_invalid_current_leader");
+        }
+        let (e, _) = r2.next_round(report, 2, m, vec![7], 0, false);
+        if e.as_deref() == Some("InvalidValidatorIndex") {
+            report.count("b_invalid_gap_leader");
+        }
+        let (e, _) = r2.next_round(report, 1, m, vec![], 0, true);
+        if e.is_none() {
+            report.count("b_fallback_round");
+        }
+        r.finish(report, cw, ci, false);
+        ci += 1;
+        r2.finish(report, cw, ci, false);
+        ci += 1;
+    }
+    // ---- C: "close to target" boundary: 10 % exactly / one ms more; target below 1000 ms ----
+    for (class, target, extra, snapped) in [
+        ("b_close_exactly_10_percent", 60_000u64, 6_000i64, true),
+        ("b_close_10_percent_plus_1ms", 60_000, 6_001, false),
+        ("b_close_small_target_exact", 1000, 100, true),
+        ("b_close_small_target_plus_1ms", 1000, 101, false),
+        ("b_close_target_below_1000", 999, 0, false),
+    ] {
+        let mut r = Runner::new(1, 1000, target, 5000).expect("genesis");
+        let t0 = r.s.eff;
+        expect_round(&mut r, report, "b_epoch_change_first_round_by_duration", 1, t0 + target as i64 + extra, 0, None, true);
+        let want = if snapped { t0 + target as i64 } else { t0 + target as i64 + extra };
+        if r.s.eff == want {
+            report.count(class);
+        } else {
+            report.count("b_unexpected_outcome");
+            report.notes.push(format!("{}: effective start {} expected {}", class, r.s.eff, want));
+        }
+        r.finish(report, cw, ci, false);
+        ci += 1;
+    }
+    // ---- D: the i32 minute limit, and the u64 epoch limit ----
+    {
+        let mut r = Runner::new(1, 1, 0, LIMIT_MS - 1).expect("genesis");
+        expect_round(&mut r, report, "b_minute_i32_max_first_ms", 1, LIMIT_MS, 0, None, true);
+        expect_round(&mut r, report, "b_minute_i32_max_last_ms", 1, LIMIT_MS + 59_999, 0, None, true);
+        expect_round(&mut r, report, "b_minute_i32_max_plus_1", 1, LIMIT_MS + 60_000, 0, Some("InvalidConsensusTime"), false);
+        expect_round(&mut r, report, "b_ts_i64_max", 1, i64::MAX, 0, Some("InvalidConsensusTime"), false);
+        compare_all(&mut r, report, "b_cmp_at_i32_minute_limit", (i32::MAX as i64) * 60, false);
+        compare_all(&mut r, report, "b_cmp_at_i32_minute_limit", (i32::MAX as i64) * 60 + 60, false);
+        r.ledger.set_current_epoch(Epoch::of(u64::MAX));
+        r.s = read_cm(&mut r.ledger);
+        // the model continues from the state read back after the direct epoch write: start a new case
+        let mut r3 = Runner { cfg_coq: r.cfg_coq.clone(), init: r.s.clone(), s: r.s.clone(), items: vec![], failures: vec![], n_ok: 0, n_err: 0, n_epoch: 0, ledger: std::mem::replace(&mut r.ledger, build_ledger(1, 1, 0, 1).expect("genesis")) };
+        expect_round(&mut r3, report, "b_epoch_u64_max_overflow", 1, LIMIT_MS + 59_999, 0, Some("EpochMathOverflow"), false);
+        r.finish(report, cw, ci, false);
+        ci += 1;
+        r3.finish(report, cw, ci, false);
+        ci += 1;
+    }
+    ci
+}
+
 fn main() {
     let args = Args::parse();
     let mut report = Report::new(
         "C44",
         args.seed,
-        "per case one ledger (random epoch-change condition, genesis time incl. negative and near the i32-minute limit) and a random \
-         sequence of next_round system transactions + time queries/comparisons; non-trivial = the history contains an accepted update, \
-         a rejected update and an epoch change; distinct by canonical op text",
+        "deterministic boundary family (negative clock and minute truncation, every timestamp/round/criterion comparison at equality and +-1,          the 10 % closeness boundary, i32 minute and u64 epoch limits, saturating comparisons) followed by random cases: per case one ledger          (random epoch-change condition, genesis time incl. negative and near the i32-minute limit) and a random sequence of next_round system          transactions + time queries/comparisons; non-trivial = the history contains an accepted update, a rejected update and an epoch change",
     );
     let mut cw = CaseWriter::new("RV.Corr.C44_run RV.Model.C44_Consensus", "check");
     let root = Rng::new(args.seed);
     let thorough = args.tier == "thorough";
-    for ci in 0..args.cases {
-        let mut rng = root.fork(ci as u64);
+    let nb = boundary_family(&mut report, &mut cw);
+    const REQUIRED: &[&str] = &[
+        "b_genesis_negative_time_truncated_minute", "b_cmp_negative_minute_eq", "b_cmp_negative_minute_below",
+        "b_cmp_negative_minute_above", "b_cmp_negative_second_eq", "b_cmp_negative_second_off_by_one",
+        "b_ts_equal_to_previous", "b_ts_one_below_previous", "b_ts_one_above_previous_same_minute",
+        "b_ts_negative_minute_step", "b_ts_negative_minute_exact", "b_ts_negative_to_minute_zero", "b_ts_minus_one_ms",
+        "b_cmp_minus_one_second_minute_precision", "b_cmp_zero_second_precision_clock_minus_1ms", "b_ts_zero",
+        "b_ts_last_ms_of_minute", "b_ts_first_ms_of_minute", "b_cmp_minute_eq", "b_cmp_minute_last_second_of_minute",
+        "b_cmp_minute_next_minute", "b_cmp_minute_prev_minute", "b_cmp_second_eq", "b_cmp_second_plus_1",
+        "b_cmp_second_minus_1", "b_cmp_sat_i64_max", "b_cmp_sat_i64_min", "b_cmp_mul_edge_fits",
+        "b_cmp_mul_edge_overflows", "b_cmp_mul_edge_fits_neg", "b_cmp_mul_edge_overflows_neg", "b_cmp_i32_minute_max",
+        "b_cmp_i32_minute_max_plus_1", "b_cmp_i32_minute_min", "b_cmp_i32_minute_min_minus_1",
+        "b_round_same", "b_round_plus_1", "b_round_minus_1", "b_round_below_min_duration_reached",
+        "b_round_gap_right_count", "b_round_gap_too_few_leaders", "b_round_gap_too_many_leaders",
+        "b_epoch_change_duration_equals_target", "b_effective_start_snapped_to_target",
+        "b_round_max_minus_1_short_duration", "b_epoch_change_by_max_round", "b_effective_start_is_timestamp",
+        "b_invalid_current_leader", "b_invalid_gap_leader", "b_fallback_round",
+        "b_close_exactly_10_percent", "b_close_10_percent_plus_1ms", "b_close_small_target_exact",
+        "b_close_small_target_plus_1ms", "b_close_target_below_1000", "b_epoch_change_first_round_by_duration",
+        "b_minute_i32_max_first_ms", "b_minute_i32_max_last_ms", "b_minute_i32_max_plus_1", "b_ts_i64_max",
+        "b_cmp_at_i32_minute_limit", "b_epoch_u64_max_overflow",
+    ];
+    for c in REQUIRED {
+        report.floor(c, 1);
+    }
+    report.floor("b_epoch_change_first_round_by_duration", 5);
+    for k in 0..args.cases {
+        let ci = nb + k;
+        let mut rng = root.fork(k as u64);
         let min_round = *rng.pick(&[1u64, 1, 2, 5]);
         let max_round = *rng.pick(&[min_round, min_round + 2, 10, 1000]);
         let target = *rng.pick(&[0u64, 500, 1000, 5000, 60_000, 300_000]);
-        let limit_ms = (i32::MAX as i64) * 60_000;
+        let limit_ms = LIMIT_MS;
         let initial_time = match rng.below(8) {
             0 => 0,
             1 => -(rng.below(200_000) as i64) - 1,
@@ -151,39 +519,19 @@ fn main() {
             4 => rng.below(1_000_000_000_000) as i64,
             _ => 1 + rng.below(120_000) as i64,
         };
-        let mut genesis = BabylonSettings::test_default().with_consensus_manager_config(
-            ConsensusManagerConfig::test_default().with_epoch_change_condition(EpochChangeCondition {
-                min_round_count: min_round,
-                max_round_count: max_round,
-                target_duration_millis: target,
-            }),
-        );
-        genesis.initial_time_ms = initial_time;
-        let built = catch(std::panic::AssertUnwindSafe(|| {
-            LedgerSimulatorBuilder::new()
-                .with_custom_protocol(|b| b.configure_babylon(|_| genesis).from_bootstrap_to_latest())
-                .without_kernel_trace()
-                .build()
-        }));
-        let mut ledger = match built {
-            Ok(l) => l,
+        let mut r = match Runner::new(min_round, max_round, target, initial_time) {
+            Ok(r) => r,
             Err(e) => {
                 report.count("genesis_failed");
                 report.notes.push(format!("case {}: genesis with initial_time {} failed: {}", ci, initial_time, e.chars().take(120).collect::<String>()));
                 continue;
             }
         };
-        let init = read_cm(&mut ledger);
-        let cfg_coq = format!("(mkCfg {}%N {}%N {}%N)", min_round, max_round, target);
-        let mut items: Vec<String> = vec![];
-        let mut failures: Vec<String> = vec![];
         let nops = if thorough { 70 } else { 40 };
-        let (mut n_ok, mut n_err, mut n_epoch) = (0u64, 0u64, 0u64);
-        let mut s = init.clone();
         for _ in 0..nops {
-            let r = rng.below(100);
-            if r < 62 {
-                // next_round
+            let x = rng.below(100);
+            let s = r.s.clone();
+            if x < 62 {
                 let round = match rng.below(12) {
                     0 => s.round,
                     1 => s.round.saturating_sub(1),
@@ -207,119 +555,20 @@ fn main() {
                     10 if rng.chance(1, 6) => i64::MAX - rng.below(3) as i64,
                     _ => s.milli + rng.below(90_000) as i64,
                 };
-                let receipt = sys_call(
-                    &mut ledger,
-                    CONSENSUS_MANAGER_NEXT_ROUND_IDENT,
-                    ConsensusManagerNextRoundInput {
-                        round: Round::of(round),
-                        proposer_timestamp_ms: ts,
-                        leader_proposal_history: LeaderProposalHistory {
-                            gap_round_leaders: (0..gaps).map(|j| if !leaders_ok && j == gaps - 1 && rng.bool() { 7 } else { 0 }).collect(),
-                            current_leader: if leaders_ok { 0 } else { 7 },
-                            is_fallback: rng.chance(1, 10),
-                        },
-                    },
-                );
-                let e = err_name(&receipt);
-                let after = read_cm(&mut ledger);
-                // direct oracle
-                if after.milli < s.milli || after.minute < s.minute {
-                    failures.push(format!("clock decreased: {:?} -> {:?}", s, after));
-                }
-                if !(after.epoch == s.epoch || (after.epoch == s.epoch + 1 && after.round == 0)) {
-                    failures.push(format!("epoch step not 0/+1 with round reset: {:?} -> {:?}", s, after));
-                }
-                if after.epoch == s.epoch && e.is_none() && after.round <= s.round {
-                    failures.push(format!("round did not advance within the epoch: {:?} -> {:?}", s, after));
-                }
-                if (after.milli / 60_000) as i128 != after.minute as i128 {
-                    failures.push(format!("minute clock {} != milli clock {} / 60000", after.minute, after.milli));
-                }
-                if e.is_some() && after != s {
-                    failures.push(format!("failed round update changed the state: {:?} -> {:?}", s, after));
-                }
-                if e.is_none() {
-                    n_ok += 1;
-                    if after.milli != ts {
-                        failures.push(format!("accepted timestamp {} not recorded (milli {})", ts, after.milli));
-                    }
-                } else {
-                    n_err += 1;
-                    report.count(&format!("err_{}", e.clone().unwrap()));
-                }
-                if after.epoch != s.epoch {
-                    n_epoch += 1;
-                }
-                items.push(format!(
-                    "(ONext (mkIn {}%N {} {}%N {}), RNext {} {})",
-                    round,
-                    coq_z(ts),
-                    gaps,
-                    coq_bool(leaders_ok),
-                    match &e { None => "None".to_string(), Some(n) => format!("(Some {})", n) },
-                    cm_coq(&after)
-                ));
-                s = after;
-            } else if r < 74 {
+                let gap_leaders: Vec<u8> = (0..gaps).map(|j| if !leaders_ok && j == gaps - 1 && rng.bool() { 7 } else { 0 }).collect();
+                let fallback = rng.chance(1, 10);
+                r.next_round(&mut report, round, ts, gap_leaders, if leaders_ok { 0 } else { 7 }, fallback);
+            } else if x < 74 {
                 let second = rng.bool();
-                let receipt = sys_call(
-                    &mut ledger,
-                    CONSENSUS_MANAGER_GET_CURRENT_TIME_IDENT,
-                    ConsensusManagerGetCurrentTimeInputV2 { precision: if second { TimePrecisionV2::Second } else { TimePrecisionV2::Minute } },
-                );
-                let t: Instant = receipt.expect_commit(true).output(0);
-                let expect = if second { (s.milli / 1000) as i128 } else { (s.minute as i128) * 60 };
-                if t.seconds_since_unix_epoch as i128 != expect {
-                    failures.push(format!("get_current_time({}) = {} but clock says {}", if second { "Second" } else { "Minute" }, t.seconds_since_unix_epoch, expect));
-                }
-                report.count("op_get_time");
-                items.push(format!("({}, RTime {})", if second { "OGetSecond" } else { "OGetMinute" }, coq_z(t.seconds_since_unix_epoch)));
+                r.get_time(&mut report, second);
             } else {
                 let second = rng.bool();
                 let inst = pick_instant(&mut rng, &s);
-                let o = *rng.pick(&[
-                    TimeComparisonOperator::Eq,
-                    TimeComparisonOperator::Lt,
-                    TimeComparisonOperator::Lte,
-                    TimeComparisonOperator::Gt,
-                    TimeComparisonOperator::Gte,
-                ]);
-                let receipt = sys_call(
-                    &mut ledger,
-                    CONSENSUS_MANAGER_COMPARE_CURRENT_TIME_IDENT,
-                    ConsensusManagerCompareCurrentTimeInputV2 {
-                        instant: Instant::new(inst),
-                        precision: if second { TimePrecisionV2::Second } else { TimePrecisionV2::Minute },
-                        operator: o,
-                    },
-                );
-                let b: bool = receipt.expect_commit(true).output(0);
-                // the statement: recorded clock vs the argument truncated to the precision (saturated)
-                let expect = if second {
-                    cmp128((s.milli / 1000) as i128, inst as i128, o)
-                } else {
-                    let m = ((inst as i128) / 60).clamp(i32::MIN as i128, i32::MAX as i128);
-                    cmp128(s.minute as i128, m, o)
-                };
-                if b != expect {
-                    failures.push(format!("compare_current_time({}, {}, {}) = {} but the recorded clock {:?} gives {}", inst, if second { "Second" } else { "Minute" }, op_name(o), b, s, expect));
-                }
-                report.count("op_compare");
-                items.push(format!("({} {} {}, RBool {})", if second { "OCmpSecond" } else { "OCmpMinute" }, coq_z(inst), op_name(o), coq_bool(b)));
+                let o = *rng.pick(&ALL_OPS);
+                r.compare(&mut report, inst, second, o);
             }
         }
-        report.count_n("round_updates_accepted", n_ok);
-        report.count_n("round_updates_rejected", n_err);
-        report.count_n("epoch_changes", n_epoch);
-        let canon = items.join(";");
-        report.case(&format!("{}{}{}", cfg_coq, cm_coq(&init), canon), n_ok > 0 && n_err > 0 && n_epoch > 0);
-        for f in failures {
-            report.oracle_failure(ci, "", &f, json!({"cfg": cfg_coq, "init": cm_coq(&init), "ops": items.iter().take(80).collect::<Vec<_>>()}));
-        }
-        if ci < 2 {
-            report.sample(json!({"cfg": cfg_coq, "init": cm_coq(&init), "ops": items.iter().take(12).collect::<Vec<_>>()}));
-        }
-        cw.push(format!("({}, {}, {})", cfg_coq, cm_coq(&init), coq_list(items.into_iter())));
+        r.finish(&mut report, &mut cw, ci, k < 2);
     }
     report.floor("round_updates_accepted", args.cases as u64);
     report.floor("round_updates_rejected", (args.cases as u64) / 2);
